@@ -84,7 +84,9 @@ Definition module_components (m : meta) : list str := split_cc (m_modpath m) [].
 
 (** Runtime argument values and their [ToString] / [Debug] rendering
     (the harness uses integers, strings/chars and a Debug-only wrapper). *)
-Inductive value := VInt (z : Z) | VStr (s : str) | VDbg (z : Z).
+(** [VBlank]: an item type whose [ToString] rendering is the empty string whatever the value
+    (several distinct values under the same, empty, label). *)
+Inductive value := VInt (z : Z) | VStr (s : str) | VDbg (z : Z) | VBlank (z : Z).
 
 Fixpoint dec_digits (fuel : nat) (n : N) (acc : str) : str :=
   match fuel with
@@ -104,6 +106,7 @@ Definition value_to_string (v : value) : str :=
   | VInt z => dec_of_Z z
   | VStr s => s
   | VDbg z => [68; 98; 103; 40] ++ dec_of_Z z ++ [41]     (* "Dbg(" .. ")" *)
+  | VBlank _ => []
   end.
 
 (** [BenchEntryRunner]: [Plain(fn(Bencher))] or [Args(fn() -> BenchArgsRunner)].
